@@ -160,9 +160,13 @@ def check_obligations(prop_mods, tier="quick", drivers=()):
     prop_files = {os.path.normpath(os.path.relpath(mod_path(m), LEAN_DIR)): m for m in prop_mods}
     upstream_broken = [f for f in broken_files if f not in prop_files]
     if not ok:
+        cones = {m: {os.path.normpath(os.path.relpath(mod_path(x), LEAN_DIR)) for x in cone([m]) if x != m} for m in prop_mods}
         for q, (m, a, b) in thms.items():
             rel = os.path.normpath(os.path.relpath(mod_path(m), LEAN_DIR))
-            if upstream_broken:
+            broken_imports = sorted(f for f in broken_files if f in cones.get(m, ()))
+            if broken_imports:
+                failed[q] = "an imported module no longer builds: " + ", ".join(broken_imports)
+            elif upstream_broken and not errs.get(rel) and not os.path.exists(os.path.join(LEAN_DIR, ".lake/build/lib/lean", m.replace(".", "/") + ".olean")):
                 failed[q] = "an imported module no longer builds: " + ", ".join(sorted(upstream_broken))
             elif rel in errs and any(a <= ln < max(b, a + 1) + 1 for ln in errs[rel]):
                 failed[q] = "proof no longer checks (%s:%d)" % (rel, [ln for ln in errs[rel] if a <= ln <= b][0])
